@@ -564,6 +564,13 @@ func (e *Eng) actIntrospectEndpoint() {
 		}
 	case 1:
 		req = []string{"not-granted"}
+	case 3:
+		// scope values are case-sensitive under every strategy: another spelling of a granted scope is not granted
+		if len(c.G.Scopes) > 0 {
+			g0 := pick(t, c.G.Scopes, "caseVariantOf")
+			req = []string{strings.ToUpper(g0[:1]) + g0[1:]}
+			e.label("introspect-requires-case-variant-of-granted-scope")
+		}
 	case 2:
 		req = append(append([]string{}, c.G.Scopes...), "zzz")
 	}
@@ -657,7 +664,7 @@ func (e *Eng) actIntrospectEndpoint() {
 	}
 	covered := true
 	for _, s := range req {
-		if !fosite.Arguments(c.G.Scopes).Has(s) {
+		if !hasExact(c.G.Scopes, s) {
 			covered = false
 		}
 	}
